@@ -270,6 +270,14 @@ func run(res *evid.Result, idx int, root string) {
 	defer os.RemoveAll(dir)
 	oldPath, _ := pairs.WriteFP(dir, "old", "p", sc.old.Source())
 	newPath, _ := pairs.WriteFP(dir, "new", "p", sc.new.Source())
+	if idx%5 == 3 {
+		// the two revisions live under import paths whose last element contains a dot and
+		// differs (a versioned directory): function names are still what pairs them
+		lay := [][2]string{{"depot/store.v1", "depot/store.v2"}, {"yaml.v2", "yaml.v3"}, {"api/v1.beta", "api/v1"}}[(idx/5)%3]
+		oldPath, _ = pairs.WriteFPAt(dir, "old", lay[0], "p", sc.old.Source())
+		newPath, _ = pairs.WriteFPAt(dir, "new", lay[1], "p", sc.new.Source())
+		res.Count("file_pairs_in_dotted_versioned_directories", 1)
+	}
 	oldSrc, newSrc := sc.old.Source(), sc.new.Source()
 	oldRs, err1 := diff.FingerprintSource(oldPath, oldSrc, ir.DefaultLiteralPolicy)
 	newRs, err2 := diff.FingerprintSource(newPath, newSrc, ir.DefaultLiteralPolicy)
@@ -289,6 +297,32 @@ func run(res *evid.Result, idx int, root string) {
 	if err != nil {
 		res.Violate("crash/compute-diff-error", err.Error(), map[string]any{"old": oldSrc, "new": newSrc})
 		return
+	}
+	if idx%5 == 3 {
+		// names are displayed with what follows the first dot of the directory ("v1.T25",
+		// "beta.T25"): a label, not part of the function's identity. The accounting below is
+		// on function names, so the label is taken off on both sides.
+		unlabel := func(n string) string {
+			for _, p := range []string{"v1.", "v2.", "v3.", "beta."} {
+				n = strings.TrimPrefix(n, p)
+				n = strings.ReplaceAll(n, "("+p, "(")
+				n = strings.ReplaceAll(n, "(*"+p, "(*")
+			}
+			return n
+		}
+		for i := range out.Functions {
+			parts := strings.Split(out.Functions[i].Function, " → ")
+			for k := range parts {
+				parts[k] = unlabel(parts[k])
+			}
+			out.Functions[i].Function = strings.Join(parts, " → ")
+		}
+		for i := range oldRs {
+			oldRs[i].FunctionName = unlabel(cli.ShortFunctionName(oldRs[i].FunctionName))
+		}
+		for i := range newRs {
+			newRs[i].FunctionName = unlabel(cli.ShortFunctionName(newRs[i].FunctionName))
+		}
 	}
 	res.Eval(1)
 	res.Count("file_pairs", 1)
